@@ -1168,7 +1168,8 @@ func (c *Ctx) secretEntropy(rule string) {
 				continue
 			}
 			if strings.HasPrefix(cn, "math/rand.") || strings.HasPrefix(cn, "(*math/rand.Rand).") || strings.HasPrefix(cn, "math/rand/v2.") {
-				ok := pkgOf(fn) == "ab/defaults" && strings.Contains(name, "SMTPMailer")
+				// (the mailer's own file: a boundary helper the Send method calls counts)
+				ok := pkgOf(fn) == "ab/defaults" && (strings.Contains(name, "SMTPMailer") || strings.Contains(posf(c, call), "defaults/smtp_mailer.go:"))
 				r.Check(ok, rule, name, cn, posf(c, call), "math/rand only for the MIME boundary", "math/rand is used outside the SMTP mailer's MIME boundary: values drawn from it are predictable and must not become tokens, codes or nonces")
 				continue
 			}
